@@ -30,7 +30,9 @@ class SplitWiring:
             v = v[2][0]          # iter(x) is as lazy as x
         d['reader_branch'] = any(c[0][0] == 'call' and c[0][1] == ('b', 'isinstance') and len(c[0][2]) == 2 and term_name(c[0][2][1]).endswith('AudioReader') and c[1] for c in l.conds)
         # laziness
-        if v[0] == 'gen':
+        if v[0] in ('tuple', 'list') and not v[1]:
+            d['lazy'], d['kind'], d['empty'] = True, 'empty', True       # an early return of "no detections" that never reaches the tokenizer
+        elif v[0] == 'gen':
             d['lazy'], d['kind'] = True, 'generator expression'
             d['elt'], gens = v[1], v[2]
             if len(gens) == 1 and not gens[0][2]:
